@@ -192,6 +192,10 @@ pub fn leaves(tier: Tier) -> Vec<DV> {
         DV::S("keep\n\n".into()),
         DV::Null,
         DV::Seq(vec![]),
+        // leading blanks: a first line of blanks only, blanks only, a blank before the text
+        DV::S("  \nt".into()),
+        DV::S("  ".into()),
+        DV::S(" a".into()),
     ];
     if tier == Tier::Thorough {
         v.push(DV::S(" lead".into()));
